@@ -234,6 +234,15 @@ def run_group(tape):
                          f"{which}T{k} (start {cfgs[k]}): OPERATIONAL requested before a status "
                          f"read reported SAFE-OPERATIONAL; AL log {log[:24]}", scenario="group",
                          **extra)
+                elif v & 0x1f == SAFEOP and not any(
+                        kk == "r" and not vv & 0x10 and vv & 0xf in (PREOP, SAFEOP, OP)
+                        for kk, vv in log[pos:i]):
+                    # one step at a time, also when the start-up of the group fails half
+                    # way and its clean-up runs while this terminal is still on its way
+                    viol("next-request-before-confirmation",
+                         f"{which}T{k} (start {cfgs[k]}): SAFE-OPERATIONAL requested before a "
+                         f"status read reported PRE-OPERATIONAL; AL log {log[:24]}",
+                         scenario="group", step="safeop", **extra)
         if error_seen is not None and outcome[0] != "EtherCatError":
             k, i, v = error_seen
             viol("error-not-raised",
@@ -278,6 +287,7 @@ def run(tape, scenario):
     world = env.world
     n = 1 if scenario == "single" else 2 + tape.draw("c14/nterm", 3)
     terms, cfgs, overlap = [], [], {}
+    unanswered = [False] * n
     for k in range(n):
         t = env.bus.add_terminal(SimTerminal(env.bus, f"T{k}", station=1001 + k))
         start = tape.pick("c14/start", ORDER)
@@ -318,6 +328,21 @@ def run(tape, scenario):
             bad = tape.pick("c14/refuse", [PREOP, SAFEOP, OP])
             t.al_fail = lambda frm, to, bad=bad, code0=code0: \
                 (-1 if code0 else 0x1d) if to == bad and frm != to else 0
+        if fault_kind == 3 and tape.chance("c14/poll-before-the-error-unanswered", 30):
+            # the status poll right before the one that shows the error is not processed by
+            # the terminal (it is busy): the caller gets "datagram was not processed" - it
+            # may give up there, but if it goes on it still has to see the error
+            reads = [0]
+
+            def skip(d, reads=reads, poll_no=poll_no, t=t, k=k):
+                if d.cmd == 4 and d.ado == 0x130 and d.adp == t.station:
+                    reads[0] += 1
+                    if reads[0] == poll_no and not unanswered[k]:
+                        unanswered[k] = True
+                        world.count("fault/al-status-poll-not-processed")
+                        return True
+                return False
+            t.skip_datagram = skip
         target = tape.pick("c14/target", [OP, SAFEOP, PREOP])
         terms.append(t)
         cfgs.append((start, err, target, maxd, fault_kind))
@@ -423,6 +448,11 @@ def run(tape, scenario):
                                "detail": f"T{k} cfg={cfgs[k]} log={t.al_log[-8:]}"})
             break
         r = judge(t.al_log, target, outcomes[k], start, err)
+        if r is not None and unanswered[k] and outcomes[k] == "EtherCatError" \
+                and r[0] in ("raised-without-error", "no-initial-status-read"):
+            # (gave up at the poll the terminal did not process: allowed)
+            world.count("c14/gave-up-at-an-unanswered-poll")
+            r = None
         if r is not None:
             violations.append({
                 "rule": r[0], "params": {},
